@@ -153,6 +153,9 @@ func (c *Ctx) lexRun() map[string]*simpleVerdict {
 					v.runs++
 					r := h.tokenize(s.text)
 					show := fmt.Sprintf("%s tokenizer on %q", kind, s.text)
+					if i%211 == 0 {
+						noteSample("TOK.lexemes/"+kind, fmt.Sprintf("%q", s.text))
+					}
 					if r.kind == "panic" {
 						v.bad = show + " panics: " + r.why
 						continue
